@@ -77,9 +77,15 @@ ValEq(a, b) ==
          [] a.k = "exc"  -> a.c.c = "ok" /\ b.c.c = "ok"      \* other exceptions: identity, not modelled
          [] OTHER        -> a = b
 
-\* Values whose equality the model does not decide (identity of exception objects).
-EqUndecided(a, b) == a.k = "exc" /\ b.k = "exc" /\ ~(a.c.c = "ok" /\ b.c.c = "ok")
-                                                  /\ ~(a.c.c = "ok" \/ b.c.c = "ok")
+\* Pairs whose equality the model does not decide: exception objects are equal iff identical,
+\* and the model keeps no identity for them (two non-ok exception values at corresponding places).
+RECURSIVE EqUndecided(_, _)
+EqUndecided(a, b) ==
+  IF a.k # b.k THEN FALSE
+  ELSE CASE a.k = "exc"  -> a.c.c # "ok" /\ b.c.c # "ok"
+         [] a.k = "list" -> Len(a.es) = Len(b.es) /\ \E i \in 1..Len(a.es) : EqUndecided(a.es[i], b.es[i])
+         [] a.k = "map"  -> \E i \in 1..Len(a.ps) : \E j \in 1..Len(b.ps) : EqUndecided(a.ps[i][2], b.ps[j][2])
+         [] OTHER        -> FALSE
 
 \* ---------------------------------------------------------------- numbers <-> strings
 IsDigit(b) == b >= 48 /\ b <= 57
